@@ -195,3 +195,17 @@ Example C14_ex_logging_changes_presentation :
   p_log (snd (optimise current_code w_platform (set_logging_level 10 w_config) 0 w_rng (w_oracles None) 9))
   <> p_log (snd (optimise current_code w_platform (set_logging_level 50 w_config) 0 w_rng (w_oracles None) 9)).
 Proof. vm_compute. discriminate. Qed.
+
+(* ---- the oracle of the differential runs decides what it is meant to decide: `holds_clause cl`
+   is true of a case iff every other run filed under clause cl has exactly the base run's
+   export (uids, fitness values, descriptive ids, node uids, parents, operator kinds and names,
+   native generations, generations in order, archive history, returned graphs, outcome) ---- *)
+Theorem C14_export_eqb_decides_equality : forall a b, export_eqb a b = true <-> a = b.
+Proof. exact export_eqb_eq. Qed.
+Print Assumptions C14_export_eqb_decides_equality.
+
+Theorem C14_holds_clause_spec : forall cl cs,
+  holds_clause cl cs = true <->
+  forall n x, In (cl, (n, x)) (k_others cs) -> x = k_base cs.
+Proof. exact holds_clause_spec. Qed.
+Print Assumptions C14_holds_clause_spec.
